@@ -463,6 +463,7 @@ def verify_function(repo: Repo, ct: M.ClassTable, reg: Registry, con: Contract,
             st.assume(f)
         fr.entry_pc = list(st.pc)
         ex.generic_eq = bool(getattr(c, "generic_eq", False))
+        ex.no_merge = bool(getattr(c, "no_merge", False))
         ex.contract_args = {k: (v.z if isinstance(v, (T, Kw)) else v) for k, v in c.args.items()}
         ex.current_props = con.props
         ex.nothrow_props = c.raise_props or con.props
